@@ -35,12 +35,3 @@ Definition corr (c : case) : bool :=
   end.
 
 Definition judge (c : case) : N := code_of (corr c) (prop c).
-
-(* ---- finite facts about the regenerated table, reported by the check as their own items -------- *)
-Definition gen_prec (o : binop) : option (nat * bool) :=
-  match lookup_op KInfix (binop_text o) with Some r => Some (or_prec r, or_left r) | None => None end.
-Definition table_orders_like_c : bool :=
-  forallb (fun o1 => forallb (fun o2 =>
-    match gen_prec o1, gen_prec o2 with
-    | Some (p1, l1), Some (p2, l2) => Bool.eqb (Nat.leb p1 p2) (Nat.leb (cprec o1) (cprec o2)) && l1 && l2
-    | _, _ => false end) all_binops) all_binops.
